@@ -353,6 +353,10 @@ static void e2e_case(Out &o, Gen &G, int method, int q, int n_target, bool float
   // positions: a jittered grid (all distinct, no degenerate triangle)
   std::vector<float> pos((size_t)n * 3);
   for (int i = 0; i < n; i++) { pos[i*3] = (float)(i % w) + 0.25f * (float)G.sym(); pos[i*3+1] = (float)(i / w) + 0.25f * (float)G.sym(); pos[i*3+2] = (float)G.sym(); }
+  // "curtain": (x,y) depend on the column only, z on the row only -> every face is vertical also after quantization, so the integer
+  // geometric normal has z == 0 exactly with x,y != 0 (the asymmetric case of CanonicalizeIntegerVector under negation)
+  const bool curtain = mesh && r.chance(30);
+  if (curtain) for (int i = 0; i < n; i++) { int cx = i % w; pos[i*3] = (float)cx; pos[i*3+1] = 0.5f * (float)cx + ((cx & 1) ? 0.75f : 0.f); pos[i*3+2] = (float)(i / w) * 1.25f; }
   // normal values: m <= n values, point i -> value i % m when mapped explicitly
   bool explicit_map = r.chance(25);
   int m = explicit_map ? (int)r.range(1, n) : n;
@@ -400,7 +404,7 @@ static void e2e_case(Out &o, Gen &G, int method, int q, int n_target, bool float
   if (pred == 1) enc.SetAttributePredictionScheme(GeometryAttribute::NORMAL, PREDICTION_DIFFERENCE);
   if (pred == 2) enc.SetAttributePredictionScheme(GeometryAttribute::NORMAL, MESH_PREDICTION_GEOMETRIC_NORMAL);
   std::string id = std::string(method_name(method)) + " speed=" + S(speed) + " q=" + S(q) + " posq=" + S(pos_q) + " pred=" + S(pred) +
-                   " n=" + S(n) + " m=" + S(m) + (explicit_map ? " mapped" : "");
+                   " n=" + S(n) + " m=" + S(m) + (explicit_map ? " mapped" : "") + (curtain ? " curtain" : "");
   EncoderBuffer eb; Status st;
   switch (method) {
     case M_PC_SEQ: enc.SetEncodingMethod(POINT_CLOUD_SEQUENTIAL_ENCODING); st = enc.EncodePointCloudToBuffer(*geo, &eb); break;
